@@ -302,6 +302,12 @@ class Escape:
                 t_ = self.attr_type(self.cls_of(qn), (attr_chain(n.iter) or '')[5:])    # iterating a generator attribute resumes that function
                 if t_ and t_.startswith('gen:') and t_[4:] in self.funcs:
                     calls.append((n.iter, [t_[4:]]))
+            if isinstance(n, ast.Assign):
+                for tgt_ in n.targets:
+                    if isinstance(tgt_, (ast.Tuple, ast.List)):
+                        self.unpack_site(qn, n, tgt_, n.value, False, srcs)
+            elif isinstance(n, (ast.For, ast.comprehension)) and isinstance(n.target, (ast.Tuple, ast.List)):
+                self.unpack_site(qn, n, n.target, n.iter, True, srcs)
             if isinstance(n, ast.Call):
                 tg = self.resolve_call(qn, n)
                 if tg:
@@ -342,7 +348,7 @@ class Escape:
                     cls = 'KeyError' if self.is_mapping(qn, n.value) else 'IndexError'
                     if cls == 'IndexError' and isinstance(n.slice, ast.Name):
                         self.pending_index.append((qn, n))
-                    elif cls == 'IndexError':
+                    elif cls == 'IndexError' and id(n) not in self.key_witness:
                         if not self.caught(qn, n, cls):
                             self.unknown_index.append(f'{qn}: `{short(n)}`')
                             continue
@@ -429,6 +435,15 @@ class Escape:
             for st in walk_no_nested(init) if init else []:
                 if isinstance(st, ast.Assign) and attr_chain(st.targets[0]) == ch and isinstance(st.value, (ast.Dict, ast.DictComp)):
                     return True
+                if isinstance(st, (ast.Assign, ast.AnnAssign)) and st.value is not None \
+                        and attr_chain(st.targets[0] if isinstance(st, ast.Assign) else st.target) == ch:
+                    # any other spelling of a constant mapping: dict(CONST), CONST.copy(), {**CONST}, a value-only helper, a local
+                    from .c02_lex import _fold_through, _Env
+                    try:
+                        if isinstance(_fold_through(self.ctx, self.mod, st.value, _Env(init)), dict):
+                            return True
+                    except Undecided:
+                        pass
         if isinstance(e, ast.Name):
             try:
                 return isinstance(fold_expr(self.repo, self.mod, e), dict)
@@ -454,6 +469,19 @@ class Escape:
             defs = [s for s in walk_no_nested(fn) if isinstance(s, ast.Assign) and any(isinstance(t, ast.Name) and t.id == n.value.id for t in s.targets)]
             if defs and all(isinstance(d.value, ast.Call) and call_method(d.value) == 'split' and d.value.args for d in defs):
                 return 'str.split(sep) never returns an empty list'
+        # (b0) constant index into something whose length range is known (str.split(sep)[0], s.partition(x)[2], a display)
+        if isinstance(idx, (ast.Constant, ast.UnaryOp)):
+            try:
+                iv = fold_expr(self.repo, self.mod, idx)
+            except Undecided:
+                iv = None
+            rng = self.length_range(qn, n.value) if isinstance(iv, int) and not isinstance(iv, bool) else None
+            if rng is not None and -rng[0] <= iv < rng[0]:
+                return f'{rng[2]} has at least {rng[0]} element(s)'
+            if rng is not None and (rng[1] is not None and not -rng[1] <= iv < rng[1]
+                                    or not (self.tested_everywhere(qn, n, [f'len({norm(n.value)})'])
+                                            or self._mentions(qn, [f'len({norm(n.value)})', ' in ' + (norm(rng[3].func.value) if isinstance(rng[3], ast.Call) and isinstance(rng[3].func, ast.Attribute) else '\0')]))):
+                self.key_witness[id(n)] = f'`{short(n)}` is out of range when {rng[2]} yields only {rng[0]} element(s) (e.g. the separator does not occur in the text)'
         # (b') first/last element of a sequence tested non-empty on every path
         if isinstance(idx, (ast.Constant, ast.UnaryOp)) and norm(idx) in ('0', '-1'):
             pts = self.conds_before(qn, n)
@@ -463,6 +491,17 @@ class Escape:
                 return f'`{seq}` is tested non-empty on every path'
         # (b'') mapping lookup under a membership test of the same key
         if self.is_mapping(qn, n.value):
+            # ... inside one expression: `m[k] if k in m else d`, `d if k not in m else m[k]`, `k in m and m[k]`
+            pm = self.mod.parent_map()
+            k, m = norm(idx), norm(n.value)
+            child: ast.AST = n
+            par = pm.get(child)
+            while par is not None and isinstance(par, ast.expr):
+                if isinstance(par, ast.IfExp) and ((child is par.body and norm(par.test) == f'{k} in {m}') or (child is par.orelse and norm(par.test) == f'{k} not in {m}')):
+                    return f'selected by the conditional expression only when `{k} in {m}`'
+                if isinstance(par, ast.BoolOp) and isinstance(par.op, ast.And) and any(norm(v) == f'{k} in {m}' for v in par.values[:par.values.index(child)] if child in par.values):
+                    return f'evaluated only after `{k} in {m}` in the same conjunction'
+                child, par = par, pm.get(par)
             pts = self.conds_before(qn, n)
             k, m = norm(idx), norm(n.value)
             if pts and all(any(e.kind == 'cond' and ((norm(e.node) == f'{k} in {m}' and e.val) or (norm(e.node) == f'{k} not in {m}' and not e.val))
@@ -488,6 +527,138 @@ class Escape:
                 elif pts and all(any(e.kind == 'cond' and norm(e.node) == idx.id and e.val for e in p.events[:i]) for p, i in pts):
                     return f'`{idx.id}` is a truthy result of accept_any(...) over keys that `{norm(n.value)}` contains'
         return None
+
+    # sequence unpacking: `a, b = <producer>` raises ValueError unless every length the producer can deliver fits the target
+    def _single_def(self, qn: str, name: str) -> T.Optional[ast.AST]:
+        fn = self.funcs[qn]
+        if name in {a.arg for a in fn.args.posonlyargs + fn.args.args + fn.args.kwonlyargs}:
+            return None
+        defs: T.List[T.Optional[ast.AST]] = []
+        for st in walk_no_nested(fn):
+            if isinstance(st, ast.Assign):
+                for t in st.targets:
+                    if isinstance(t, ast.Name) and t.id == name:
+                        defs.append(st.value)
+                    elif any(isinstance(x, ast.Name) and x.id == name for x in ast.walk(t)):
+                        defs.append(None)
+            elif isinstance(st, ast.AnnAssign) and isinstance(st.target, ast.Name) and st.target.id == name:
+                defs.append(st.value)
+            elif isinstance(st, (ast.AugAssign, ast.For, ast.NamedExpr, ast.comprehension)) and any(isinstance(x, ast.Name) and x.id == name for x in ast.walk(st.target)):
+                defs.extend([None, None])
+            elif isinstance(st, ast.Call) and isinstance(st.func, ast.Attribute) and isinstance(st.func.value, ast.Name) and st.func.value.id == name \
+                    and st.func.attr in ('append', 'extend', 'insert', 'pop', 'remove', 'clear'):
+                defs.extend([None, None])
+        return defs[0] if len(defs) == 1 else None
+
+    def length_range(self, qn: str, e: ast.AST, depth: int = 0) -> T.Optional[T.Tuple[int, T.Optional[int], str, ast.AST]]:
+        """(min length, max length or None, description, producer) for expressions whose number of elements is fixed by the
+        language: displays, str.split/rsplit/partition/rpartition/splitlines, re.split/findall; read through copies and
+        single-definition locals.  None: not such a producer (its arity is a typing contract, not decided here)."""
+        if depth > 6:
+            return None
+        if isinstance(e, (ast.Tuple, ast.List)):
+            plain = sum(1 for x in e.elts if not isinstance(x, ast.Starred))
+            return plain, (plain if plain == len(e.elts) else None), f'the display `{short(e, 40)}`', e
+        if isinstance(e, ast.Name):
+            d = self._single_def(qn, e.id)
+            return self.length_range(qn, d, depth + 1) if d is not None else None
+        if not isinstance(e, ast.Call):
+            return None
+        name = attr_chain(e.func) or ''
+        if name in ('list', 'tuple', 'T.cast', 'typing.cast') and e.args and not e.keywords:
+            return self.length_range(qn, e.args[-1], depth + 1)
+        meth = e.func.attr if isinstance(e.func, ast.Attribute) else ''
+        desc = f'`{short(e, 50)}`'
+        if meth in ('partition', 'rpartition') and len(e.args) == 1:
+            return 3, 3, desc, e
+        if meth == 'splitlines' or (meth == 'findall' and e.args):
+            return 0, None, desc, e
+        if meth in ('split', 'rsplit'):
+            is_re = name == 're.split'
+            args = list(e.args[1:]) if is_re else list(e.args)
+            kw = {k.arg: k.value for k in e.keywords}
+            if None in kw or (is_re and not e.args):
+                return None
+            first = args[0] if args else kw.get('sep', kw.get('string'))
+            ms = args[1] if len(args) > 1 else kw.get('maxsplit')
+            lo = 1 if first is not None and not (isinstance(first, ast.Constant) and first.value is None) else 0
+            hi: T.Optional[int] = None
+            if ms is not None:
+                try:
+                    mv = fold_expr(self.repo, self.mod, ms)
+                except Undecided:
+                    return None
+                if not isinstance(mv, int) or isinstance(mv, bool) or mv == 0:
+                    return None          # 0 means "no split" for str and "no limit" for a compiled regex: receiver type unknown
+                hi = mv + 1 if mv > 0 else None
+            return lo, hi, desc, e
+        return None
+
+    def _mentions(self, qn: str, subjects: T.List[str]) -> bool:
+        """No path evidence for this function: does any test in it mention one of the subjects (a guard may exist)?"""
+        for x in walk_no_nested(self.funcs[qn]):
+            t = getattr(x, 'test', None)
+            if isinstance(t, ast.AST) and any(sj in norm(t) for sj in subjects):
+                return True
+        return False
+
+    def unpack_site(self, qn: str, stmt: ast.AST, target: ast.AST, value: ast.AST, elementwise: bool, srcs: T.List[Source]) -> None:
+        elts = target.elts  # type: ignore[attr-defined]
+        plain = sum(1 for x in elts if not isinstance(x, ast.Starred))
+        star = plain != len(elts)
+        if elementwise:
+            # `for a, b in (x.split(..) for x in xs)`: the elements are what is unpacked
+            if not (isinstance(value, (ast.ListComp, ast.GeneratorExp)) and len(value.generators) >= 1):
+                return
+            value = value.elt
+        rng = self.length_range(qn, value)
+        if rng is None:
+            return
+        lo, hi, desc, prod = rng
+        anchor = stmt if not isinstance(stmt, ast.comprehension) else value
+        # guards understood on every path to the site: `sep in s` for s.split(sep, ..); `len(x) == n` / `>= n` for a named result
+        pts = self.conds_before(qn, anchor) if not isinstance(stmt, ast.For) else []
+        subjects: T.List[str] = []
+        if isinstance(prod, ast.Call) and isinstance(prod.func, ast.Attribute) and prod.func.attr in ('split', 'rsplit') and prod.args \
+                and attr_chain(prod.func) != 're.split':
+            recv, sep = norm(prod.func.value), norm(prod.args[0])
+            subjects += [f'{sep} in {recv}', f'{sep} not in {recv}', f'{recv}.count(', f'{recv}.find(', f'{recv}.index(']
+            if pts and all(any(e.kind == 'cond' and ((norm(e.node) == f'{sep} in {recv}' and e.val) or (norm(e.node) == f'{sep} not in {recv}' and not e.val))
+                               for e in p.events[:i]) for p, i in pts) and (hi is None or hi >= 2):
+                lo = max(lo, 2)
+        if isinstance(value, ast.Name):
+            subjects += [f'len({value.id})', f'not {value.id}']
+            bounds: T.List[T.Tuple[int, T.Optional[int]]] = []
+            for p, i in pts:
+                b: T.Optional[T.Tuple[int, T.Optional[int]]] = None
+                for e in p.events[:i]:
+                    if e.kind == 'cond' and isinstance(e.node, ast.Compare) and len(e.node.ops) == 1 and norm(e.node.left) == f'len({value.id})' \
+                            and isinstance(e.node.comparators[0], ast.Constant) and isinstance(e.node.comparators[0].value, int):
+                        k, op = e.node.comparators[0].value, e.node.ops[0]
+                        if (isinstance(op, ast.Eq) and e.val) or (isinstance(op, ast.NotEq) and not e.val):
+                            b = (k, k)
+                        elif (isinstance(op, ast.GtE) and e.val) or (isinstance(op, ast.Lt) and not e.val):
+                            b = (k, None)
+                        elif (isinstance(op, ast.Gt) and e.val) or (isinstance(op, ast.LtE) and not e.val):
+                            b = (k + 1, None)
+                if b is None:
+                    bounds = []
+                    break
+                bounds.append(b)
+            if bounds:
+                lo = max(lo, min(b[0] for b in bounds))
+                his = [b[1] for b in bounds]
+                if all(h is not None for h in his):
+                    hi = max(T.cast(int, h) for h in his) if hi is None else min(hi, max(T.cast(int, h) for h in his))
+        fits = lo >= plain if star else (lo == plain and hi == plain)
+        want = f'at least {plain}' if star else f'exactly {plain}'
+        have = f'{lo}' if hi == lo else f'{lo}..{hi if hi is not None else "any number of"}'
+        if fits:
+            self.discharged.append(f'{qn}: unpacking `{short(anchor, 60)}` total: {desc} yields {have} element(s), the target takes {want}')
+            return
+        srcs.append(Source('ValueError', qn, anchor, f'the target of `{short(anchor, 70)}` takes {want} value(s) but {desc} yields {have} element(s) '
+                           f'(e.g. when the separator does not occur in the text): "not enough/too many values to unpack"',
+                           not (bool(subjects) and (self.tested_everywhere(qn, anchor, subjects, inclusive=False) or (not pts and self._mentions(qn, subjects))))))
 
     def accept_any_returns_member(self) -> bool:
         fn = self.funcs.get('Parser.accept_any')
@@ -568,17 +739,58 @@ class Escape:
                         return None
                     for p, i in pts:
                         found = None
-                        for e in reversed(p.events[:i]):
-                            if e.node is None or not self._consumes(e.node):
+                        kw = dict(self.keyword_events(p.events[:i]))
+                        for j in range(i - 1, -1, -1):
+                            e = p.events[j]
+                            if e.node is None or e.kind not in ('stmt', 'cond') or not self._consumes(e.node):
                                 continue
-                            if e.kind == 'cond' and e.val and isinstance(e.node, ast.Call) and attr_chain(e.node.func) == 'self.accept' \
-                                    and e.node.args and isinstance(e.node.args[0], ast.Constant):
-                                found = e.node.args[0].value
+                            if e.kind == 'cond' and not e.val and isinstance(e.node, ast.Call) and attr_chain(e.node.func) == 'self.accept':
+                                continue        # a failed accept() takes nothing
+                            found = kw.get(j)
                             break
                         if found is None:
                             return None
                         out.add(found)
         return out or None
+
+    def demanders(self) -> T.Set[str]:
+        """Parser methods m(kind, ...) that return only after `self.accept(kind)` succeeded for their first parameter (every other
+        path raises): `expect`, `block_expect` and whatever helper is written the same way."""
+        got = getattr(self, '_demanders', None)
+        if got is not None:
+            return got
+        out: T.Set[str] = set()
+        for q, f in self.funcs.items():
+            if self.cls_of(q) != 'Parser' or len(f.args.args) < 2:
+                continue
+            p0 = f.args.args[1].arg
+            ps = enumerate_paths(f.body, unroll=1)
+            live = [p for p in ps if p.outcome != 'raise']
+            if live and all(any(e.kind == 'cond' and e.val and isinstance(e.node, ast.Call) and attr_chain(e.node.func) == 'self.accept'
+                                and len(e.node.args) == 1 and isinstance(e.node.args[0], ast.Name) and e.node.args[0].id == p0 for e in p.events)
+                            for p in live) and not any(isinstance(t, ast.Name) and t.id == p0 and isinstance(t.ctx, ast.Store) for t in ast.walk(f)):
+                out.add(q.split('.')[-1])
+        self._demanders = out
+        return out
+
+    def keyword_events(self, evs: T.List[T.Any]) -> T.List[T.Tuple[int, str]]:
+        """(event index, token kind) for every point of a path at which a constant token kind is known to have been taken from
+        the stream: a successful `self.accept('k')` test, or any statement/test that gets past `self.<demander>('k', ...)`."""
+        out: T.List[T.Tuple[int, str]] = []
+        dem = self.demanders()
+        for j, e in enumerate(evs):
+            if e.node is None or e.kind not in ('stmt', 'cond'):
+                continue
+            if e.kind == 'cond' and isinstance(e.node, ast.Call) and attr_chain(e.node.func) == 'self.accept':
+                if e.val and e.node.args and isinstance(e.node.args[0], ast.Constant):
+                    out.append((j, e.node.args[0].value))
+                continue
+            for c in ast.walk(e.node):
+                if isinstance(c, ast.Call) and (attr_chain(c.func) or '').startswith('self.') and (attr_chain(c.func) or '')[5:] in dem:
+                    a0 = c.args[0] if c.args else next((k.value for k in c.keywords if k.arg), None)
+                    if isinstance(a0, ast.Constant) and isinstance(a0.value, str):
+                        out.append((j, a0.value))
+        return out
 
     def filled_by_loop(self, qn: str, n: ast.Attribute, pts: T.List[T.Tuple[Path, int]]) -> T.Optional[str]:
         """`X.whitespaces.value` where X was filled by `for w in L: X.append_whitespaces(w)` and L cannot be empty:
@@ -611,10 +823,14 @@ class Escape:
             snap = [j for j, e in enumerate(evs) if e.kind == 'stmt' and isinstance(e.node, ast.Assign) and norm(e.node.targets[0]) == lname]
             if len(snap) != 1 or norm(evs[snap[0]].node.value) not in ('self.current_ws.copy()', 'list(self.current_ws)'):  # type: ignore[union-attr]
                 return None
-            acc = [(j, e) for j, e in enumerate(evs) if e.kind == 'cond' and e.val and isinstance(e.node, ast.Call) and attr_chain(e.node.func) == 'self.accept'
-                   and e.node.args and isinstance(e.node.args[0], ast.Constant)]
+            acc = self.keyword_events(evs)
             before = [a for a in acc if a[0] < snap[0]]
             after = [a for a in acc if a[0] > snap[0]]
+            known_at = {a[0] for a in acc}
+            if any(e.node is not None and e.kind in ('stmt', 'cond') and j not in known_at and self._consumes(e.node)
+                   and not (e.kind == 'cond' and not e.val and isinstance(e.node, ast.Call) and attr_chain(e.node.func) == 'self.accept')
+                   for j, e in enumerate(evs) if j > snap[0]):
+                return None     # something consumes tokens after the snapshot in a way that is not read as "token kind K was taken"
             if not before and after and not any(self._consumes(e.node) for e in evs[:snap[0]] if e.node is not None):
                 # the first keyword was accepted by the caller just before this helper was entered
                 ks = self.entry_keywords(qn)
@@ -629,8 +845,8 @@ class Escape:
                                      f'it need not contain the whitespace between them, so `{short(n.value)}` can be None')
             if not before or not after:
                 return None
-            k2 = after[0][1].node.args[0].value
-            k1 = before[-1][1].node.args[0].value if k1s is None else sorted(k1s)[0]
+            k2 = after[0][1]
+            k1 = before[-1][1] if k1s is None else sorted(k1s)[0]
             if k1s is not None and not (idre and all(k in kws and all(rx.full_matches(r.pattern, k + k2, r.flags) for r in idre) for k in k1s)):
                 return None
             # no other consumption between the two accepts
